@@ -85,6 +85,24 @@ def check_production(g, shapes, pr, prod):
         except Exception as e:
             out.setdefault('source', []).append((label, 'printing raised %r' % (e,)))
         runs += 1
+        # nesting A -> B -> A: a child re-enters the file of a non-immediate ancestor
+        v.sourcepath = 'B.js'
+        hs2 = {}
+        for s in run.slots[1:]:
+            h = s.get('hole')
+            for x in (h if isinstance(h, list) else [h]):
+                if isinstance(x, g.asttypes_mod.Node):
+                    x.sourcepath = 'A.js' if x._hole_slot % 2 == 1 else None
+                    hs2[x._hole_slot] = x.sourcepath or 'B.js'
+        outer = g.asttypes.ES5Program([v])
+        outer.sourcepath = 'A.js'
+        try:
+            frags = pr.print_node(outer, pr.configs()[1][1]())
+            for why in frag_problems(run, frags, 'B.js', hs2):
+                out.setdefault('source', []).append((label, 'A>B>A nesting: ' + why))
+        except Exception as e:
+            out.setdefault('source', []).append((label, 'printing raised %r' % (e,)))
+        runs += 1
     return runs, out
 
 
@@ -137,7 +155,7 @@ def check_program(mods, srcs, cname, mk_rules, with_comments):
     return probs
 
 
-SEPS = [' ', '\n', '\r\n', ' /*c*/ ', '  // x\n']
+SEPS = [' ', '\n', ' /*a\u2028b\u2029*/ ', '\r\n', ' /*c*/ ', '  // x\n']
 
 
 def main(run, tier):
@@ -184,7 +202,7 @@ def main(run, tier):
     corpus = gen.corpus(g, depth2=(tier == 'thorough'))
     seps = SEPS if tier == 'thorough' else SEPS[:3]
     progs = [gen.render(t, sep) for _, t in corpus for sep in seps]
-    progs += [p.replace(' ', s) for p in gen.EXTRA_PROGRAMS for s in (' ', '\n', ' /*c*/ ')]
+    progs += [p.replace(' ', s) for p in gen.EXTRA_PROGRAMS for s in (' ', '\n', ' /*c*/ ', ' /*a\u2028b*/ ')]
     n = ok = nfail = 0
     cfgs = pr.configs()
     for k, src in enumerate(progs):
